@@ -195,7 +195,8 @@ def run(ctx):
                                   desc="reference table `%s` covers every column of the sidecar" % sub.value.id)
     ctx.floor("R8.2", "reference tables indexed during expansion", n_tab, 1)
     # screening must actually test membership in the known columns and balance of braces
-    src = norm(refs.node)
+    # (the screening may be split over private helpers of the validator: look at everything _validate_refs reaches in its class)
+    src = " ".join(norm(f_.node) for f_ in cg.reachable([refs], STRONG_KINDS) if f_.cls is refs.cls or f_ is refs)
     for need, what in (("INVALID_COLUMN_REF", "unknown-reference test"), ("_find_non_matching_braces", "brace balance test")):
         ctx.check(need in src, "R8.2", refs.qualname, what, loc(refs, refs.node), "_validate_refs lost its %s" % what,
                   desc="screening pass has the %s" % what)
